@@ -180,6 +180,8 @@ func H_Search_Template(p []int) {
 			} else {
 				pts[i] = Point{-10, -10}
 			}
+		case 3: // flat zig-zag: every segment spans the full width (all boxes tie along the long axis), distinct heights
+			pts[i] = Point{float64(i % 2 * 100), float64(i)}
 		default: // collinear run
 			pts[i] = Point{float64(i), 0}
 		}
